@@ -199,7 +199,7 @@ func (l *JLayout) Print(b *bytes.Buffer, syms *Symbols, n *JNode) error {
 			b.WriteString(n.V[1:])
 			return nil
 		}
-		s, err := syms.Lexical(n.V, l.R.Intn(3))
+		s, err := syms.Lexical(n.V, l.R.Intn(4))
 		if err != nil {
 			return err
 		}
